@@ -9,7 +9,7 @@ duration read at the wrong moment (request time instead of start) is visible.  H
 further requests from INSIDE start_work / end_work.
 '''
 from . import Violation, HarnessError
-from . import canon
+from . import canon, globalstate
 from .comp import CompWorld, world
 
 from simprocesd.model import System, EventType, Environment
@@ -26,15 +26,21 @@ class SysGlobals:
         self._saved = (Asset._id_counter, System._instance)
         Asset._id_counter = self.id_counter
         System._instance = self.system
+        if getattr(self, 'gvals', None) is None:
+            self.gvals = globalstate.fresh()
+        self._gsaved = globalstate.enter(self.gvals)
 
     def _leave(self):
         self.id_counter = Asset._id_counter
         Asset._id_counter, System._instance = self._saved
         self._saved = None
+        globalstate.leave(self.gvals, self._gsaved)
+        self._gsaved = None
 
     def __getstate__(self):
         d = dict(self.__dict__)
         d.pop('_saved', None)
+        d.pop('_gsaved', None)
         return d
 
 
